@@ -50,8 +50,24 @@ def make_command(key, n):
         "c24": lambda: dg.IdentifyDevice(A.DeviceShort(a)),
         "n24": lambda: dg.DTR0(n % 256),
         "i24": lambda: dg.QueryInstanceType(A.DeviceShort(a), A.InstanceNumber(n % 32)),
+        # frames of a length no gateway carries (a driver must refuse them)
+        "odd8": lambda: _odd(8, n % 256),
+        "odd25": lambda: _odd(25, n),
     }
     return table[key]()
+
+
+def _odd(bits, value):
+    from dali import command, frame
+
+    class Odd(command.Command):
+        def __init__(self):
+            self._data = frame.ForwardFrame(bits, value)
+
+        @property
+        def frame(self):
+            return self._data
+    return Odd()
 
 
 def describe_command(cmd):
@@ -74,14 +90,20 @@ def describe_result(r):
 
 
 def _seq_of(cmds, flag=None):
-    """a library-style sequence (generator) yielding the given commands and returning their responses"""
+    """a library-style sequence (generator) yielding the given items (commands, sequences.sleep, sequences.progress)
+    and returning the responses to the commands; what comes back for a sleep / progress item must be None"""
+    from dali.command import Command
+
     def gen():
         if flag is not None:
             flag["started"] = True
         out = []
         for c in cmds:
             r = yield c
-            out.append(r)
+            if isinstance(c, Command):
+                out.append(r)
+            elif r is not None and flag is not None:
+                flag["aux_bad"] = True
         return out
     return gen()
 
@@ -292,8 +314,12 @@ class Run:
         await self.events[name].wait()
         self.callers[name]["_started"] = True
         d = self.driver
-        cmds = [make_command(k, n) for k, n in c["unit"]]
-        res = {"results": [], "exc": "none", "closed": -1, "t0": round(self.loop.time(), 6), "t1": -1}
+        from dali import sequences as _sq
+        items = [(_sq.sleep(n / 1000.0) if k == "sleep" else _sq.progress(message="p%d" % n) if k == "progress" else make_command(k, n))
+                 for k, n in c["unit"]]
+        cmds = [x for x in items if not isinstance(x, (_sq.sleep, _sq.progress))]
+        nprog = sum(1 for x in items if isinstance(x, _sq.progress))
+        res = {"results": [], "exc": "none", "closed": -1, "t0": round(self.loop.time(), 6), "t1": -1, "aux_ok": 1}
         self.callers[name]["_desc"] = [describe_command(x) for x in cmds]
         kw = {}
         if self.kind in ("tridonic", "hasseb") and "exceptions" in c:
@@ -301,14 +327,24 @@ class Run:
         try:
             if c.get("mode", "send") == "send":
                 for x in cmds:
-                    r = await d.send(x, **kw)
+                    try:
+                        r = await d.send(x, **kw)
+                    except Exception as e:  # noqa: an expected refusal does not end the caller
+                        if type(e).__name__ in c.get("continue_on", []):
+                            res["results"].append({"k": "exc", "cls": type(e).__name__, "raw": ["none", 0]})
+                            continue
+                        raise
                     res["results"].append(describe_result(r))
             else:
                 flag = {"started": False}
-                seq = _seq_of(cmds, flag)
+                seq = _seq_of(items, flag)
                 self.closed_seqs[name] = (seq, flag)
-                rs = await d.run_sequence(seq)
+                seen = []
+                rs = await d.run_sequence(seq, progress=seen.append)
                 res["results"] = [describe_result(r) for r in (rs or [])]
+                # sleep / progress items: answered with None, every progress item handed to the callback, in order
+                if flag.get("aux_bad") or [str(x) for x in seen] != [str(x) for x in items if isinstance(x, _sq.progress)]:
+                    res["aux_ok"] = 0
         except asyncio.CancelledError:
             res["exc"] = "CancelledError"
             self.elog.append({"ev": "cancel", "c": name})
@@ -472,7 +508,7 @@ def run_scenario(sc):
         callers.append({"name": name, "mode": c.get("mode", "send"), "unit": c.get("_desc", []),
                         "results": res["results"], "exc": res["exc"], "closed": res["closed"],
                         "done": 1 if (t is not None and t.done()) else 0, "t0": res.get("t0", -1), "t1": res.get("t1", -1),
-                        "cancelled": 1 if c.get("_cancelled") else 0,
+                        "cancelled": 1 if c.get("_cancelled") else 0, "aux_ok": res.get("aux_ok", 1),
                         "exceptions": 1 if (c.get("mode") == "sequence" or c.get("exceptions", sc.get("exceptions", True))) else 0})
     try:
         pending = [t for t in asyncio.all_tasks(loop) if not t.done()]
